@@ -94,6 +94,11 @@ with np.errstate(all="ignore"):
     r = np.log10(s)
     check("log10f: monotone, log10(1)=0, log10(0)=-inf, bounds", np.all(np.diff(r[s > 0]) >= 0) and np.log10(np.float32(1)) == 0 and np.isneginf(np.log10(np.float32(0)))
           and np.all(r[(s > 0) & (s < 1)] >= -46) and np.all(r[s > 1] <= 39), None)
+    # E2 axiom: |fl(a*w)| <= |a| for |w| <= 1 (binary64)
+    a64 = samples(np.float64, -1e300, 1e300, N)
+    w64 = samples(np.float64, -1.0, 1.0, N)
+    k = min(len(a64), len(w64))
+    check("mul64: |a*w| <= |a| for |w| <= 1", np.all(np.abs(a64[:k] * w64[:k]) <= np.abs(a64[:k])), None)
     # constants substituted for libm calls in some harnesses
     check("const tan(pi*1000/48000)", math.tan(math.pi * (1000.0 / 48000.0)) == 0.06554346281523822, math.tan(math.pi * (1000.0 / 48000.0)))
     check("const 10^(+-6/40), tan(pi*500/48000)", 10.0 ** (6 / 40) == 1.4125375446227544 and 10.0 ** (-6 / 40) == 0.7079457843841379 and math.tan(math.pi * (500.0 * (1.0 / 48000.0))) == 0.032736610412972586, (10.0 ** (6 / 40), 10.0 ** (-6 / 40), math.tan(math.pi * (500.0 * (1.0 / 48000.0)))))
